@@ -26,6 +26,19 @@ dictionary counting, independent of trimesh's own topology code.
                           kept faces untouched, result watertight and consistently wound with
                           positive volume; triangles restored exactly; volume restored exactly
                           for triangle and PLANAR quad holes only
+
+Input classes added in round 4 (each is a class of the quantifier, not a reproducer):
+  units                   fill_holes on the same integer mesh given in small units (x 1e-3, 1e-5,
+                          3e-6): closing a hole is a topological result and may not depend on the
+                          unit; the oracle keeps judging the integer mesh
+  few faces               every triangle / quad hole of solids with fewer than 8 faces (two faces
+                          may be all that is left)
+  touching bodies         solids that share ONE vertex index (what merge_vertices makes of parts
+                          that touch in a corner): watertight, bodies are face-connected
+  punctured               a closed or open mesh after a random face subset was removed (a vertex may
+                          end up with four boundary edges: two fans that meet in a point); Loop is
+                          judged there by topology, translation covariance and bounding box only
+  unreferenced vertices   a vertex row no face uses (what update_faces leaves behind)
 """
 
 from __future__ import annotations
@@ -46,7 +59,10 @@ RULE = (
     "single / random subsets of larger ones, by three routes, with and without cached normals; "
     "fill_holes after deleting isolated triangles and adjacent pairs (with and without shared "
     "vertices, planar and non-planar quads); subdivide of all faces and of face subsets; "
-    "subdivide_to_size over bounds and iteration caps; subdivide_loop over 1-2 iterations.  A case is "
+    "subdivide_to_size over bounds and iteration caps; subdivide_loop over 1-2 iterations.  Further "
+    "input classes: the hole meshes in small units (x 1e-3, 1e-5, 3e-6), every hole of solids with < 8 "
+    "faces, bodies sharing one vertex, meshes punctured by random face subsets (pinched boundary "
+    "vertices), unreferenced vertex rows.  A case is "
     "one (operation, options, mesh, subset); distinct = distinct digest of those; non-trivial = the "
     "operation had something to do (some face re-wound / removed / subdivided)."
 )
@@ -80,6 +96,8 @@ ASSUMPTIONS = [
 ]
 
 TOL = 1e-9
+# label of the unit class in which every triangle's cross product is at / below tol.zero
+SCALE_TINY = "1e-07"
 
 
 # ---------------------------------------------------------------------------- topology (dict counting)
@@ -224,13 +242,17 @@ def unordered_key(F):
     return S[np.lexsort(S.T[::-1])]
 
 
-def fresh_normals_ok(m):
-    """m.face_normals agree with the geometry of m.faces (unit cross products)."""
+def fresh_normals_ok(m, min_cross=0.0):
+    """
+    m.face_normals agree with the geometry of m.faces (unit cross products).  Faces whose cross
+    product is not above `min_cross` are not judged (small units: below tol.zero the library
+    documents a zero normal).
+    """
     Vf = np.asarray(m.vertices, dtype=np.float64)
     F = np.asarray(m.faces)
     cr = np.cross(Vf[F[:, 1]] - Vf[F[:, 0]], Vf[F[:, 2]] - Vf[F[:, 0]])
     ln = np.linalg.norm(cr, axis=1)
-    good = ln > 0
+    good = ln > min_cross
     want = cr[good] / ln[good][:, None]
     got = np.asarray(m.face_normals)
     if got.shape != (len(F), 3):
@@ -246,6 +268,7 @@ CLASS = {
     "frame_torus": "genus1", "l_prism": "nonconvex", "polycube": "nonconvex",
     "multibody_disjoint": "multibody", "nested_cavity": "cavity", "overlapping_shells": "overlapping",
     "open_grid": "open", "disc": "open", "open_hull": "open",
+    "touching_bodies": "touching_bodies", "punctured": "open",
 }
 
 
@@ -264,8 +287,90 @@ def lifted_grid(rng, nx, ny):
     return V, F
 
 
+def touching_bodies(rng):
+    """
+    Two or three solids that share exactly ONE vertex index (parts touching in a corner after
+    merge_vertices): every edge still has two faces, the bodies (face-connected groups) are the
+    parts, the vertex graph is connected.  No two vertex rows coincide.
+    """
+    for _ in range(50):
+        pool = [G.tetra(rng), G.box_int(tuple(int(v) for v in rng.integers(1, 4, size=3))), G.hull_int(rng, int(rng.integers(5, 9))),
+                G.octahedron(), G.box_int((2, 2, 2))]
+        order = rng.permutation(len(pool))[: int(rng.integers(2, 4))]
+        V, F = pool[int(order[0])]
+        V, F = V.copy(), F.copy()
+        for o in order[1:]:
+            Vb, Fb = pool[int(o)]
+            a = int(rng.integers(len(V)))
+            b = int(rng.integers(len(Vb)))
+            Vb = Vb + (V[a] - Vb[b])
+            # row b of the second part is dropped, its faces use row a of the first
+            remap = np.arange(len(Vb)) + len(V)
+            remap[b + 1:] -= 1
+            remap[b] = a
+            V = np.vstack([V, np.delete(Vb, b, axis=0)])
+            F = np.vstack([F, remap[Fb]])
+        if len(np.unique(V, axis=0)) == len(V) and np.abs(V).max() <= 64:
+            return V.astype(np.int64), F.astype(np.int64)
+    return G.concat([G.box_int((2, 2, 2)), G.box_int((1, 1, 1), (5, 5, 5))])
+
+
+def punctured(rng, V, F, pinch=False):
+    """
+    The mesh after a subset of its faces was removed (vertices compacted).  pinch=True removes two
+    faces that share a vertex but no edge first: that vertex keeps four boundary edges.
+    Returns (V, F) or None.
+    """
+    n = len(F)
+    drop = np.zeros(n, dtype=bool)
+    if pinch:
+        vf = {}
+        for i, f in enumerate(F.tolist()):
+            for v in f:
+                vf.setdefault(v, []).append(i)
+        cands = [v for v, fs in vf.items() if len(fs) >= 4]
+        if not cands:
+            return None
+        v = cands[int(rng.integers(len(cands)))]
+        fs = vf[v]
+        pairs = [(i, j) for i in fs for j in fs if i < j and len(set(F[i].tolist()) & set(F[j].tolist())) == 1]
+        if not pairs:
+            return None
+        i, j = pairs[int(rng.integers(len(pairs)))]
+        drop[[i, j]] = True
+        drop |= rng.random(n) < 0.05
+    else:
+        drop = rng.random(n) < float(rng.choice([0.08, 0.2, 0.35]))
+    if drop.all() or (~drop).sum() < 2 or not drop.any():
+        return None
+    Fk = F[~drop]
+    used, inv = np.unique(Fk, return_inverse=True)
+    return V[used], inv.reshape(-1, 3).astype(np.int64)
+
+
+def pinched_boundary(F):
+    """Some vertex has more than two boundary edges (two open fans meet in it)."""
+    cnt = {}
+    for e, c in topo(F)["edges"].items():
+        if c == 1:
+            cnt[e[0]] = cnt.get(e[0], 0) + 1
+            cnt[e[1]] = cnt.get(e[1], 0) + 1
+    return any(c > 2 for c in cnt.values())
+
+
+def with_unreferenced(rng, V, F):
+    """One extra vertex row that no face uses, inserted at a random position."""
+    p = int(rng.integers(0, len(V) + 1))
+    row = rng.integers(-9, 10, size=(1, 3)).astype(np.int64)
+    V2 = np.vstack([V[:p], row, V[p:]])
+    F2 = F + (F >= p)
+    return V2, F2.astype(np.int64)
+
+
 def random_closed(rng):
-    r = int(rng.integers(0, 8))
+    r = int(rng.integers(0, 9))
+    if r == 8:
+        return ("touching_bodies",) + touching_bodies(rng)
     if r == 0:
         return ("tetra",) + G.tetra(rng)
     if r in (1, 2):
@@ -299,7 +404,10 @@ class Ctx:
         self.case = case
         self.op = case["op"]
         self.tag = case["mesh"]["tag"]
-        self.mclass = CLASS.get(self.tag, self.tag)
+        base = self.tag.split("+")[0]
+        # "<tag>+unref": the vertex array has a row no face uses
+        self.unref = self.tag.endswith("+unref")
+        self.mclass = CLASS.get(base, base)
         self.V = np.array(case["mesh"]["V"], dtype=np.int64).reshape(-1, 3)
         self.F = np.array(case["mesh"]["F"], dtype=np.int64).reshape(-1, 3)
         self.Vf = self.V.astype(np.float64)
@@ -309,8 +417,12 @@ class Ctx:
         parts = ["op=%s" % self.op]
         for k, v in feat.items():
             parts.append("%s=%s" % (k, v))
-        if feat.get("boundary_graph") != "extra_cycles" and feat.get("other_diagonal") != "taken":
-            # (for holes whose rims span further short cycles the rim structure is the input class)
+        if self.unref:
+            parts.append("vertices=unreferenced")
+        if not (feat.get("boundary_graph") == "extra_cycles" or feat.get("other_diagonal") == "taken" or self.unref
+                or feat.get("boundary") == "pinched" or feat.get("scale") == SCALE_TINY or "faces_left" in feat):
+            # (for holes whose rims span further short cycles the rim structure is the input class;
+            # likewise an unreferenced vertex, a pinched boundary vertex, faces under tol.zero)
             parts.append("mesh=%s" % self.mclass)
         parts.append("sym=%s" % sym)
         return " ".join(parts)
@@ -394,8 +506,11 @@ def op_fix_normals(run, ctx):
         return
     bad = [c for c in bodies(Fout) if vol6_int(ctx.V, Fout[np.array(c)]) <= 0]
     if bad:
-        _viol(run, ctx, "negative_body", "a body has non-positive volume after fix_normals", feat,
-              n_bodies=len(comps), n_bad=len(bad))
+        # bodies sharing a vertex: the input class and the route are the mechanism (which faces
+        # were re-wound, cached normals and the unit do not matter) - one key per route
+        kfeat = {"route": route} if ctx.mclass == "touching_bodies" else feat
+        _viol(run, ctx, "negative_body", "a body has non-positive volume after fix_normals", kfeat,
+              n_bodies=len(comps), n_bad=len(bad), flips=feat["flips"], normals_cached=feat["normals_cached"], scale=feat["scale"])
         return
     okn, err = fresh_normals_ok(m)
     if not okn:
@@ -540,13 +655,31 @@ def op_fill_holes(run, ctx):
     keep[dele] = False
     Fin = ctx.F[keep]
     feat = hole_features(ctx.V, ctx.F, groups)
+    fine_kind = feat["holes"]
+    if len(Fin) < 3:
+        # two faces are all that is left (their rim is one quad whose other diagonal is necessarily
+        # their common edge): the number of faces is the input class
+        feat = {"holes": feat["holes"], "faces_left": str(len(Fin))}
+    # `scale`: the same mesh in small units.  Whether a hole gets closed is a topological result; it
+    # may not depend on the unit.  1e-3: control; 1e-5: every triangle area is below tol.merge
+    # (1e-8, a length compared with an area); 1e-7: every cross product is at / below tol.zero
+    # (1e-13) while the vertices are still >= 10 x tol.merge apart (distinct for the library,
+    # faces kept by nondegenerate_faces).  The oracle keeps judging the integer mesh.
+    scale = float(ctx.opts.get("scale", 1.0))
+    if scale != 1.0:
+        if "%g" % scale == SCALE_TINY:
+            kinds = feat["holes"]
+            feat = {"holes": "tri" if kinds == "tri" else ("quad" if kinds.startswith("quad") else "mixed"), "scale": SCALE_TINY}
+        else:
+            feat["scale"] = "%g" % scale
+    Vin = ctx.Vf * scale
     run.state("fill_holes_input", tuple(feat.values()) + (ctx.mclass,))
     t_orig = topo(ctx.F)
     if ctx.opts.get("arrival") == "inverted_warm":
         # the mesh arrives at these faces through a history: built inside out, queried (edges,
         # adjacency, watertightness cached), then turned right side out by the library's own
         # invert() - what was cached for the reversed faces must not steer the hole filling
-        m = G.to_trimesh(ctx.V, np.ascontiguousarray(Fin[:, ::-1]))
+        m = G.to_trimesh(Vin, np.ascontiguousarray(Fin[:, ::-1]))
         _ = m.is_watertight, m.edges, m.face_adjacency, m.is_winding_consistent
         m.invert()
         if not np.array_equal(np.asarray(m.faces), Fin):
@@ -554,7 +687,7 @@ def op_fill_holes(run, ctx):
             return
         run.count("fill_holes_after_query_and_invert")
     else:
-        m = G.to_trimesh(ctx.V, Fin)
+        m = G.to_trimesh(Vin, Fin)
     if cached:
         m.face_normals  # noqa
     try:
@@ -564,7 +697,7 @@ def op_fill_holes(run, ctx):
         return
     Fout = np.asarray(m.faces)
     Vout = np.asarray(m.vertices)
-    if Vout.shape != ctx.Vf.shape or not np.array_equal(Vout, ctx.Vf):
+    if Vout.shape != Vin.shape or not np.array_equal(Vout, Vin):
         _viol(run, ctx, "vertices_changed", "fill_holes changed the vertices although triangle / quad holes need none", feat)
         return
     if len(Fout) < len(Fin) or not np.array_equal(Fout[: len(Fin)], Fin):
@@ -613,12 +746,13 @@ def op_fill_holes(run, ctx):
         if not np.array_equal(oriented_key(Fout), oriented_key(ctx.F)):
             _viol(run, ctx, "triangles_not_restored", "filled triangle holes do not restore the original oriented triangles", feat)
             return
-    if feat["holes"] in ("tri", "quad_planar", "mixed(quad_planar+tri)"):
+    if fine_kind in ("tri", "quad_planar", "mixed(quad_planar+tri)"):
         if vol6_int(ctx.V, Fout) != vol6_int(ctx.V, ctx.F):
             _viol(run, ctx, "volume_not_restored", "volume differs from the original after filling triangle / planar quad holes", feat,
                   got6=vol6_int(ctx.V, Fout), want6=vol6_int(ctx.V, ctx.F))
             return
-    okn, err = fresh_normals_ok(m)
+    # (small units: a face whose cross product is not 10 x above tol.zero has a documented zero normal)
+    okn, err = fresh_normals_ok(m, min_cross=0.0 if scale == 1.0 else 1e-12)
     if not okn:
         _viol(run, ctx, "stale_normals", "face_normals do not match the faces after fill_holes", dict(feat, normals_cached="yes" if cached else "no"), err=err)
 
@@ -902,6 +1036,12 @@ def op_subdivide_loop(run, ctx):
     route = ctx.opts.get("route", "function")
     t0 = topo(ctx.F)
     feat = {"chord": "yes" if (t0["boundary"] and has_chord(ctx.F)) else "no"}
+    if ctx.unref:
+        feat = {}  # (the key names the unreferenced vertex row)
+    elif t0["boundary"] and pinched_boundary(ctx.F):
+        # two open fans meet in a boundary vertex (a face subset was removed): the documented masks
+        # do not say what happens there; topology and the affine laws are judged, the masks are not
+        feat = {"boundary": "pinched"}
     shift = np.array(ctx.opts.get("shift", [16, -32, 8]), dtype=np.float64)
 
     def call(Vf):
@@ -920,7 +1060,7 @@ def op_subdivide_loop(run, ctx):
     except Exception as e:  # noqa
         _viol(run, ctx, "raised:" + type(e).__name__, "subdivide_loop raised on a manifold mesh", feat, error=repr(e)[:300])
         return
-    run.state("loop_input", (ctx.mclass, feat["chord"], it))
+    run.state("loop_input", (ctx.mclass, tuple(feat.items()), ctx.unref, it))
     if len(NF_) != len(ctx.F) * 4**it:
         _viol(run, ctx, "face_count", "Loop subdivision did not produce 4^k faces per face", feat, got=int(len(NF_)))
         return
@@ -1032,7 +1172,8 @@ def workload(run):
 
     # (2) everything else on a stream of meshes
     fixed = [("frame_torus",) + G.frame_torus((2, 1, 3)), ("l_prism",) + G.l_prism(), ("octahedron",) + G.octahedron(),
-             ("box",) + G.box_int((2, 3, 4))]
+             ("box",) + G.box_int((2, 3, 4)), ("tetra",) + G.tetra(np.random.default_rng(5)),
+             ("touching_bodies",) + touching_bodies(np.random.default_rng(7))]
     k = 0
     while not run.out_of_time(0.92):
         if k < len(fixed):
@@ -1079,10 +1220,20 @@ def workload(run):
                     g = hole_plan(rng, V, F, int(rng.integers(0, 2)), 0, around_face=True)
                 if g:
                     plans.append(g)
+            g = diag_taken_plan(rng, F)
+            if g and single:
+                plans.append(g)
             for gi, g in enumerate(plans):
                 execute(run, make_case("fill_holes", tag, V, F, groups=g, cached=bool(gi % 2), route=("method", "function")[gi % 3 == 2]))
                 if gi % 2 == 0:
                     execute(run, make_case("fill_holes", tag, V, F, groups=g, cached=bool(gi % 4), route="method", arrival="inverted_warm"))
+                fill_holes_in_units(run, tag, V, F, g, gi + k)
+        elif n >= 4 and single:
+            # solids with few faces: EVERY triangle hole and EVERY quad hole (two faces may be all that is left)
+            for gi, g in enumerate(small_hole_plans(F)):
+                execute(run, make_case("fill_holes", tag, V, F, groups=g, cached=bool(gi % 2), route=("method", "function")[gi % 3 == 2]))
+                if gi % 3 == 0:
+                    fill_holes_in_units(run, tag, V, F, g, gi + k)
         # ---- subdivide, all faces and subsets
         if n <= 120:
             execute(run, make_case("subdivide", tag, V, F, subset=None, route="function"))
@@ -1109,6 +1260,32 @@ def workload(run):
                 execute(run, make_case("subdivide_loop", tag, V, F, iterations=2, route="method"))
             if k % 3 == 0:
                 execute(run, make_case("subdivide_loop", tag, V, F, iterations=None, route="function"))
+        # ---- the mesh after a face subset was removed (pinched boundary vertices), every other round
+        if k % 2 == 1 and n >= 8:
+            for rep in range(2):
+                pm = punctured(rng, V, F, pinch=bool(rep))
+                if pm is None or len(pm[1]) > 150:
+                    continue
+                PV, PF = pm
+                execute(run, make_case("subdivide_loop", "punctured", PV, PF, iterations=1 + (k // 2) % 2, route=("function", "method")[(k // 2 + rep) % 2]))
+                execute(run, make_case("subdivide", "punctured", PV, PF, subset=None, route=("function", "method")[rep]))
+        # ---- a vertex row no face uses (what update_faces leaves behind), every third round
+        if k % 3 == 1 and n <= 64:
+            UV, UF = with_unreferenced(rng, V, F)
+            utag = tag + "+unref"
+            execute(run, make_case("subdivide_loop", utag, UV, UF, iterations=1, route=("function", "method")[k % 2]))
+            execute(run, make_case("subdivide", utag, UV, UF, subset=None, route=("function", "method")[k % 2]))
+            execute(run, make_case("subdivide", utag, UV, UF, subset=[int(i) for i in rng.choice(n, size=max(1, n // 3), replace=False)],
+                                   form="array", route="function"))
+            UL = float(np.linalg.norm(UV[UF][:, [0, 1, 2]].astype(float) - UV[UF][:, [1, 2, 0]].astype(float), axis=2).max())
+            execute(run, make_case("subdivide_to_size", utag, UV, UF, max_edge=UL * 0.43, max_iter=10, route=("function", "method")[k % 2]))
+            uflip = [int(i) for i in np.nonzero(rng.random(n) < 0.4)[0]] or [0]
+            execute(run, make_case("fix_normals", utag, UV, UF, flip=uflip, route=("method", "function:multibody", "process:validate")[k % 3 if k % 3 < 2 else 0],
+                                   cached=bool(k % 2)))
+            if n >= 8:
+                g = hole_plan(rng, UV, UF, 1, int(rng.integers(0, 2)))
+                if g and hole_features(UV, UF, g).get("boundary_graph") != "extra_cycles":
+                    execute(run, make_case("fill_holes", utag, UV, UF, groups=g, cached=False))
         # ---- open meshes every other round
         if k % 2 == 0:
             if k % 4 == 0:
@@ -1124,6 +1301,52 @@ def workload(run):
                     execute(run, make_case("fill_holes", otag, OV, OF, groups=g, cached=False))
             EL = np.linalg.norm(OV[OF][:, [0, 1, 2]].astype(float) - OV[OF][:, [1, 2, 0]].astype(float), axis=2).max()
             execute(run, make_case("subdivide_to_size", otag, OV, OF, max_edge=float(EL) * 0.41, max_iter=10, route="method"))
+
+
+def diag_taken_plan(rng, F):
+    """One quad hole (adjacent pair) whose other diagonal is an edge of what is left, or None."""
+    und = topo(F)["edges"]
+    first = {}
+    pairs = []
+    for i, f in enumerate(F.tolist()):
+        a, b, c = f
+        for x, y in ((a, b), (b, c), (c, a)):
+            k = (x, y) if x < y else (y, x)
+            if k in first:
+                j = first[k]
+                other = tuple(sorted((set(f) | set(F[j].tolist())) - set(k)))
+                if len(other) == 2 and und.get(other, 0) == 2 and und[k] == 2:
+                    pairs.append([j, i])
+            else:
+                first[k] = i
+    if not pairs or len(F) < 8:
+        return None
+    return [pairs[int(rng.integers(len(pairs)))]]
+
+
+def small_hole_plans(F):
+    """Every triangle hole and every quad hole (adjacent pair) of a small solid, one plan each."""
+    plans = [[[i]] for i in range(len(F))]
+    for i in range(len(F)):
+        for j in range(i + 1, len(F)):
+            if len(set(F[i].tolist()) & set(F[j].tolist())) == 2:
+                plans.append([[i, j]])
+    return [g for g in plans if len(F) - len(g[0]) >= 2]
+
+
+def fill_holes_in_units(run, tag, V, F, g, gi):
+    """The hole plan `g` again with the mesh given in small units."""
+    feat = hole_features(V, F, g)
+    if feat.get("boundary_graph") == "extra_cycles" or len(F) - sum(len(x) for x in g) < 3:
+        return  # (fail in any unit: finding 1, round-4 defect 8)
+    # (lead's ruling: units in which the cross products of the triangles fall below tol.zero - 1e-7
+    # for these integer meshes - are the library's documented resolution, as in C01 / the other
+    # operations of this monitor: the smallest unit used is 3e-6)
+    scales = [(1e-5, 1e-3, 1e-5, 3e-6)[gi % 4]]
+    if gi % 4 != 3 and feat.get("other_diagonal") != "taken":
+        scales.append(3e-6)
+    for sc in dict.fromkeys(scales):
+        execute(run, make_case("fill_holes", tag, V, F, groups=g, cached=bool(gi % 2), route=("method", "function")[gi % 3 == 1], scale=sc))
 
 
 def replay(run, case):
